@@ -23,9 +23,15 @@ type verifRun struct {
 // verifRunTree: one line through the real redactor and serialiser, with the input parsed
 // by the independent parser. Returns nil if the line was not emitted.
 func verifRunTree(name string) *verifRun {
+	// literals of class S are not field-path references ('$...' strings are spelled out
+	// in the templates themselves, with a symbolic remainder)
+	for _, s := range verifHoles(name, "S") {
+		verifAssume(!strings.HasPrefix(s, "$"))
+	}
 	line := verifLine(name)
 	in, ok := verifParseLine(line)
 	verifAssume(ok)
+	verifAssumeDistinctSiblings(in)
 	out, err := RedactMongoLog(line)
 	verifAssert(err == nil, "object-line-accepted")
 	if err != nil {
@@ -40,6 +46,20 @@ func verifRunTree(name string) *verifRun {
 	verifEmit(r.text)
 	verifReach("emitted")
 	return r
+}
+
+// verifAssumeDistinctSiblings: the properties are stated for lines without duplicate sibling keys.
+func verifAssumeDistinctSiblings(n *verifNode) {
+	if n.kind == vObj {
+		for i := range n.keys {
+			for j := i + 1; j < len(n.keys); j++ {
+				verifAssume(n.keys[i] != n.keys[j])
+			}
+		}
+	}
+	for _, k := range n.kids {
+		verifAssumeDistinctSiblings(k)
+	}
 }
 
 // ---- C03: shape ----
